@@ -30,6 +30,9 @@ type variantSpec struct {
 	ScaleCaps bool `json:"scale_caps"`
 	// SplitRMW: variables whose x++ / x-- is split at a scheduling point (race-directed)
 	SplitRMW []string `json:"split_rmw"`
+	// Replace: textual replacements [file relative to /repo, old, new]; old must occur
+	// exactly once, otherwise the variant is skipped (never an alarm)
+	Replace [][3]string `json:"replace"`
 }
 
 type spec struct {
@@ -143,6 +146,20 @@ func main() {
 		for k, v := range vs.Consts {
 			p := strings.SplitN(k, ":", 2)
 			if err := ov.SetConst(filepath.Join(repoRoot(), p[0]), p[1], v); err != nil {
+				fmt.Fprintf(os.Stderr, "variant %s skipped: %v\n", name, err)
+				ok = false
+			}
+		}
+		for _, rp := range vs.Replace {
+			path := filepath.Join(repoRoot(), rp[0])
+			src, err := ov.Current(path)
+			if err == nil && strings.Count(string(src), rp[1]) != 1 {
+				err = fmt.Errorf("%q occurs %d times in %s", rp[1], strings.Count(string(src), rp[1]), rp[0])
+			}
+			if err == nil {
+				err = ov.Put(path, []byte(strings.Replace(string(src), rp[1], rp[2], 1)))
+			}
+			if err != nil {
 				fmt.Fprintf(os.Stderr, "variant %s skipped: %v\n", name, err)
 				ok = false
 			}
